@@ -197,6 +197,8 @@ class Lexer(object):
         self.valid_prev_token = None
         self.cur_token = None
         self.cur_token_real = None
+        # the real token before cur_token_real
+        self.prev_token_real = None
         self.next_tokens = []
         self.token_stack = [[None, []]]
         self.newline_idx = [0]
@@ -310,8 +312,10 @@ class Lexer(object):
                 self.prev_token
             )
             is_division_allowed = (
-                check_token is not None and
-                check_token.type in TOKENS_THAT_IMPLY_DIVISON
+                check_token is not None and (
+                    check_token.type in TOKENS_THAT_IMPLY_DIVISON or
+                    # a reserved word used as a property name (a.in / 2)
+                    self._is_property_name(check_token))
             ) and (
                 self.token_stack[-1][0] is None or (
                     # if the token on the stack is the same, the
@@ -341,7 +345,18 @@ class Lexer(object):
         self.cur_token = new_token
         if (self.cur_token and
                 self.cur_token.type not in DIVISION_SYNTAX_MARKERS):
+            self.prev_token_real = self.cur_token_real
             self.cur_token_real = self.cur_token
+
+    def _is_property_name(self, token):
+        # whether the real token is a reserved word following a dot, i.e.
+        # an IdentifierName used as a property name (11.2.1).
+        return (
+            token is self.cur_token_real and
+            token.type in self.keywords and
+            self.prev_token_real is not None and
+            self.prev_token_real.type == 'PERIOD'
+        )
 
     def _is_prev_token_lt(self):
         return self.prev_token and self.prev_token.type == 'LINE_TERMINATOR'
@@ -391,7 +406,8 @@ class Lexer(object):
             and self.cur_token.type == 'LINE_TERMINATOR'
             and self.prev_token is not None
             and self.prev_token.type in ['BREAK', 'CONTINUE',
-                                         'RETURN', 'THROW']):
+                                         'RETURN', 'THROW']
+                and not self._is_property_name(self.prev_token)):
             return self._create_semi_token(self.cur_token)
 
         return self.cur_token
